@@ -172,25 +172,25 @@ def make_cbitset(pfx='cbitset'):
         '__CPROVER_requires(%s && vx_thrown == 0)\n__CPROVER_assigns(vx_thrown)\n/* returns only for idx < N (otherwise throws) */\n__CPROVER_ensures(idx < self->N && vx_thrown == 0)' % cb_wf('self'),
         harness_args=', i', harness_pre='size_t i;')
     one('set', r'constexpr\s+cbitset&\s+set\(size_type idx\)', '%s* %s_set(%s* self, size_t idx)' % (V, pfx, V),
-        '__CPROVER_requires(%s && vx_thrown == 0)\n__CPROVER_assigns(vx_thrown, __CPROVER_object_whole(self))\n'
-        '__CPROVER_ensures(idx < self->N && self->N == __CPROVER_old(self->N) && %s == 1 && __CPROVER_return_value == self)\n__CPROVER_ensures(idx < CB_WORDS * 64 && %s)'
+        '__CPROVER_requires(%s && vx_thrown == 0)\n__CPROVER_assigns(vx_thrown, *self)\n'
+        '__CPROVER_ensures(vx_thrown == 0 && idx < self->N && self->N == __CPROVER_old(self->N) && %s == 1 && __CPROVER_return_value == self)\n__CPROVER_ensures(idx < CB_WORDS * 64 && %s)'
         % (cb_wf('self'), CB_BIT('self', 'idx'), cb_frame('self', 'vq_cbs', 'idx')),
         harness_args=', i', harness_pre='size_t i;', replace=['%s_check_idx' % pfx])
     one('reset', r'constexpr\s+cbitset&\s+reset\(size_type idx\)', '%s* %s_reset(%s* self, size_t idx)' % (V, pfx, V),
-        '__CPROVER_requires(%s && vx_thrown == 0)\n__CPROVER_assigns(vx_thrown, __CPROVER_object_whole(self))\n'
-        '__CPROVER_ensures(idx < self->N && self->N == __CPROVER_old(self->N) && %s == 0 && __CPROVER_return_value == self)\n__CPROVER_ensures(idx < CB_WORDS * 64 && %s)'
+        '__CPROVER_requires(%s && vx_thrown == 0)\n__CPROVER_assigns(vx_thrown, *self)\n'
+        '__CPROVER_ensures(vx_thrown == 0 && idx < self->N && self->N == __CPROVER_old(self->N) && %s == 0 && __CPROVER_return_value == self)\n__CPROVER_ensures(idx < CB_WORDS * 64 && %s)'
         % (cb_wf('self'), CB_BIT('self', 'idx'), cb_frame('self', 'vq_cbr', 'idx')),
         harness_args=', i', harness_pre='size_t i;', replace=['%s_check_idx' % pfx])
     one('test', r'constexpr\s+bool\s+test\(size_type idx\)\s*const', 'bool %s_test(const %s* self, size_t idx)' % (pfx, V),
-        '__CPROVER_requires(%s && vx_thrown == 0)\n__CPROVER_assigns(vx_thrown)\n__CPROVER_ensures(idx < self->N && __CPROVER_return_value == (bool)%s)'
+        '__CPROVER_requires(%s && vx_thrown == 0)\n__CPROVER_assigns(vx_thrown)\n__CPROVER_ensures(vx_thrown == 0 && idx < self->N && __CPROVER_return_value == (bool)%s)'
         % (cb_wf('self'), CB_BIT('self', 'idx')),
         harness_args=', i', harness_pre='size_t i;', replace=['%s_check_idx' % pfx])
     one('add', r'constexpr\s+void\s+add\(const cbitset<N>& other\)', 'void %s_add(%s* self, const %s* other)' % (pfx, V, V),
-        '__CPROVER_requires(%s && %s && other->N == self->N)\n__CPROVER_assigns(__CPROVER_object_whole(self))\n'
+        '__CPROVER_requires(%s && %s && other->N == self->N)\n__CPROVER_assigns(*self)\n'
         '/* set union, word by word */\n__CPROVER_ensures(self->N == __CPROVER_old(self->N) && __CPROVER_forall { size_t vq_cba; (vq_cba < CB_WORDS) ==> (vq_cba < CB_UCOUNT(self) ==> self->data[vq_cba] == (__CPROVER_old(*self).data[vq_cba] | other->data[vq_cba])) && (vq_cba >= CB_UCOUNT(self) ==> self->data[vq_cba] == __CPROVER_old(*self).data[vq_cba]) })'
         % (cb_wf('self'), cb_wf('other').replace('w_ok', 'r_ok')),
         rules=[S(r'other\.data', 'other->data')] + R,
-        loops={0: '__CPROVER_assigns(i, __CPROVER_object_whole(self))\n__CPROVER_loop_invariant(i <= CB_UCOUNT(self) && self->N == __CPROVER_loop_entry(self->N) && __CPROVER_forall { size_t vq_cbl; (vq_cbl < CB_WORDS) ==> ((vq_cbl < i ==> self->data[vq_cbl] == (__CPROVER_loop_entry(*self).data[vq_cbl] | other->data[vq_cbl])) && (vq_cbl >= i ==> self->data[vq_cbl] == __CPROVER_loop_entry(*self).data[vq_cbl])) })\n__CPROVER_decreases(CB_UCOUNT(self) - i)'},
+        loops={0: '__CPROVER_assigns(i, *self)\n__CPROVER_loop_invariant(i <= CB_UCOUNT(self) && self->N == __CPROVER_loop_entry(self->N) && __CPROVER_forall { size_t vq_cbl; (vq_cbl < CB_WORDS) ==> ((vq_cbl < i ==> self->data[vq_cbl] == (__CPROVER_loop_entry(*self).data[vq_cbl] | other->data[vq_cbl])) && (vq_cbl >= i ==> self->data[vq_cbl] == __CPROVER_loop_entry(*self).data[vq_cbl])) })\n__CPROVER_decreases(CB_UCOUNT(self) - i)'},
         harness_args=', &y', harness_pre='%s y;' % V)
     one('eq', r'constexpr\s+bool\s+operator\s*==\s*\(const cbitset<N>& other\)\s*const', 'bool %s_eq(const %s* self, const %s* other)' % (pfx, V, V),
         '__CPROVER_requires(%s && %s && other->N == self->N)\n__CPROVER_assigns()\n'
